@@ -256,6 +256,50 @@ def generate(repo):
     if ci != ci_expected:
         raise ValueError("document.rs condense_indices: the body is not the one Number.condense_indices models: %r" % ci)
 
+    # ---- the passes after condense_dotted_initialisms (Model/C17Later.v): pattern constants + verbatim bodies
+    flat = lambda name: re.sub(r"\s+", " ", fn_body(doc, name)).strip()
+    lat = re.sub(r"\s", "", fn_body(doc, "uncached_latin_pattern"))
+    m = re.fullmatch(r'Lrc::new\(EitherPattern::new\(vec!\[Box::new\(SequencePattern::default\(\)\.then\(WordSet::new\(&\[((?:"[a-z]+",?)+)\]\)\)\.then_period\(\),\),'
+                     r'Box::new\(SequencePattern::aco\("([a-z]+)"\)\.then_whitespace\(\)\.t_aco\("([a-z]+)"\)\.then_period\(\),\),\]\)\)', lat)
+    if not m:
+        raise ValueError("document.rs uncached_latin_pattern: shape not recognised: %r" % lat)
+    latin_words = re.findall(r'"([a-z]+)"', m.group(1))
+    latin_first, latin_second = m.group(2), m.group(3)
+    m = re.fullmatch(r"let period = SequencePattern::default\(\)\.then_period\(\); Lrc::new\(RepeatingPattern::new\(Box::new\(period\), (\d+)\)\)",
+                     flat("uncached_ellipsis_pattern"))
+    if not m:
+        raise ValueError("document.rs uncached_ellipsis_pattern: shape not recognised")
+    ellipsis_min = int(m.group(1))
+    later_expected = {
+        "condense_pattern": "let matches = pattern.find_all_matches_in_doc(self); let mut remove_indices = VecDeque::with_capacity(matches.len()); "
+                            "for m in matches { remove_indices.extend(m.start + 1..m.end); self.tokens[m.start].span = self.tokens[m.into_iter()].span().unwrap(); "
+                            "edit(&mut self.tokens[m.start]); } self.tokens.remove_indices(remove_indices);",
+        "condense_ellipsis": "let pattern = Self::ELLIPSIS_PATTERN.with(|v| v.clone()); self.condense_pattern(&pattern, |tok| { tok.kind = TokenKind::Punctuation(Punctuation::Ellipsis) });",
+        "condense_latin": "self.condense_pattern(&Self::LATIN_PATTERN.with(|v| v.clone()), |_| {})",
+        "condense_contractions": "let pattern = Self::CONTRACTION_PATTERN.with(|v| v.clone()); self.condense_pattern(&pattern, |_| {});",
+        # the two passes that are the identity on the token abstraction of Number.v (they write Quote::twin_loc and
+        # Word metadata only, members Number.kind does not carry):
+        "match_quotes": "let quote_indices: Vec<usize> = self.tokens.iter_quote_indices().collect(); for i in 0..quote_indices.len() / 2 { "
+                        "let a_i = quote_indices[i * 2]; let b_i = quote_indices[i * 2 + 1]; { let a = self.tokens[a_i].kind.as_mut_quote().unwrap(); a.twin_loc = Some(b_i); } "
+                        "{ let b = self.tokens[b_i].kind.as_mut_quote().unwrap(); b.twin_loc = Some(a_i); } }",
+        "articles_imply_nouns": "let pattern = Self::ARTICLE_PATTERN.with(|v| v.clone()); for m in pattern.find_all_matches_in_doc(self) { "
+                                "if let TokenKind::Word(Some(metadata)) = &mut self.tokens[m.start + 2].kind { metadata.noun = None; metadata.verb = None; } }",
+    }
+    for name, want in later_expected.items():
+        if flat(name) != want:
+            raise ValueError("document.rs %s: the body is not the one Model/C17Later.v models: %r" % (name, flat(name)))
+    tail = "self.articles_imply_nouns(); for token in self.tokens.iter_mut() { if let TokenKind::Word(meta) = &mut token.kind { " \
+           "let word_source = token.span.get_content(&self.source); let found_meta = dictionary.get_word_metadata(word_source); *meta = found_meta.cloned() } }"
+    if not flat("parse").endswith(tail):
+        raise ValueError("document.rs Document::parse: the metadata loop is not the one C17Later.meta_loop models")
+    pat_src = strip_comments(strip_tests(open(os.path.join(repo, "harper-core/src/patterns/mod.rs"), encoding="utf-8").read()))
+    fam = re.sub(r"\s+", " ", fn_body(pat_src, "find_all_matches")).strip()
+    fam_expected = ("let mut found = Vec::new(); for i in 0..tokens.len() { let len = self.matches(&tokens[i..], source); if len > 0 { found.push(Span::new_with_len(i, len)); } } "
+                    "if found.len() < 2 { return found; } let mut remove_indices = VecDeque::new(); for i in 0..found.len() - 1 { let cur = &found[i]; let next = &found[i + 1]; "
+                    "if cur.overlaps_with(*next) { remove_indices.push_back(i + 1); } } found.remove_indices(remove_indices); found")
+    if fam_expected not in fam:
+        raise ValueError("patterns/mod.rs find_all_matches: the body is not the one C17Later.find_all_matches_g models: %r" % fam)
+
     def coq_list(items):
         return "[" + "; ".join(items) + "]"
 
@@ -296,6 +340,15 @@ def generate(repo):
     out.append("Definition quote_chars : list N := " + coq_list(str(c) for c in quotes) + "%N.")
     out.append("(* lex_number: besides ASCII digits, the characters a candidate may contain *)")
     out.append("Definition float_extra_chars : list N := " + coq_list(str(c) for c in floats) + "%N.")
+    out.append("(* Document::uncached_latin_pattern / uncached_ellipsis_pattern (Model/C17Later.v): WordSet words, the two")
+    out.append("   any-capitalisation words of `et al.`, RepeatingPattern's required repetitions *)")
+    out.append("Definition latin_wordset : list (list N) := " + coq_list(coq_list(str(ord(c)) for c in w) for w in latin_words) + "%N.")
+    out.append("Definition latin_first : list N := " + coq_list(str(ord(c)) for c in latin_first) + "%N.")
+    out.append("Definition latin_second : list N := " + coq_list(str(ord(c)) for c in latin_second) + "%N.")
+    out.append("Definition ellipsis_min_repetitions : nat := %d." % ellipsis_min)
+    out.append("(* checked verbatim by the translator: the bodies of condense_pattern, condense_ellipsis, condense_latin,")
+    out.append("   condense_contractions, match_quotes, articles_imply_nouns, the metadata loop of Document::parse and")
+    out.append("   PatternExt::find_all_matches *)")
     out.append("(* checked verbatim by the translator: lex_token tries " + ", ".join(EXPECTED_LEXERS) + " in this order;")
     out.append("   Document::parse runs " + ", ".join(EXPECTED_PASSES) + " in this order;")
     out.append("   the contraction pattern is any_word, apostrophe, any_word; lex_hostname accepts [A-Za-z0-9-] *)")
